@@ -22,6 +22,8 @@ var verifFuzzProgs = []verifTemplate{
 	{"try-match", "fn risky(n: int) -> int { if n > 3 { throw(\"big\"); } return n + 1; }\nfn main() {\n  let v = try { risky(A) } catch e { 0 - 1 };\n  println(v);\n  println(match A { 1 => 10, _ => 20, });\n}\n"},
 	{"compare-conditions", "fn main() {\n  if A <= B { println(\"le\"); } else { println(\"gt\"); }\n  if A >= B { println(\"ge\"); } else { println(\"lt\"); }\n  let c = A < B;\n  let d = A > B;\n  let e = A == B;\n  let f = A != B;\n  println(c, d, e, f);\n  let n = 0;\n  while n <= 2 { n += 1; }\n  println(n);\n  let fl = X <= Y;\n  let fg = X >= Y;\n  println(fl, fg);\n}\n"},
 	{"arith-statements", "fn main() {\n  let s = A + B;\n  let d = A - B;\n  let m = A * K;\n  let q = (A - B) - (B - A);\n  println(s, d, m, q);\n  let t = A;\n  t += B;\n  t -= 3;\n  println(t);\n  let b = P && Q;\n  let o = P || Q;\n  let x = !P;\n  println(b, o, x);\n}\n"},
+	{"break-in-if-else", "fn main() {\n  for i in 0..4 {\n    if i == A { break; } else { println(\"a\", i); }\n    println(\"c\", i);\n  }\n  println(\"end\");\n}\n"},
+	{"continue-in-if-else", "fn main() {\n  let n = 0;\n  while n < 4 {\n    n += 1;\n    if n == C { continue; } else { println(\"w\", n); }\n    println(\"x\");\n  }\n  println(\"end\", n);\n}\n"},
 	{"none-literal", "fn main() {\n  let n: ?int = none;\n  println(n);\n}\n"},
 	{"null-literal", "fn f() -> null { return null; }\nfn main() {\n  f();\n  println(1);\n}\n"},
 }
